@@ -151,10 +151,11 @@ class H(S.Hooks):
             cells, own, ch = set(s.cells), set(s._own_refs), set(s.spaces)
             # every member name is a name: what the containers hold can be written in a formula and reached by
             # attribute access only if it is a valid identifier (not a keyword, no leading underscore)
-            for n in sorted(cells | own | ch, key=repr):
+            # (cells and child spaces: the clause of C11 the property text gives; reference names are not judged)
+            for n in sorted(cells | ch, key=repr):
                 if not api.valid_name(n):
                     out.fail("in %s the %s name %r is not a valid identifier" % (
-                        path, "cells" if n in cells else "reference" if n in own else "child space", n), hist)
+                        path, "cells" if n in cells else "child space", n), hist)
             for a, b, what in ((cells, own, "a cells and a reference"), (cells, ch, "a cells and a child space"),
                                (own, ch, "a reference and a child space")):
                 if a & b:
